@@ -787,6 +787,8 @@ class KEval:
                     return Poly.const(len(a))
                 if isinstance(a, Ref):
                     return ShapeOf(a).get(0)
+                if isinstance(a, ShapeOf):
+                    return Poly.fn("ndim", a.ref.poly())
                 return TOP
             if fn.id in ("abs", "min", "max", "round", "sum", "bool", "pow"):
                 sc = [self.scalar(a) for a in args]
@@ -913,7 +915,10 @@ class KEval:
                     if isinstance(v, tuple):
                         return tuple(rename(x) for x in v)
                     return v
-                if isinstance(r, Top):
+                carried = isinstance(r, Poly) and any(a[0] == "s" and a[1].endswith("~") for a in r.all_atoms())
+                if isinstance(r, Top) or carried:
+                    # the result depends on loop-carried state of the callee (a count, a running sum): keep it as an
+                    # uninterpreted application of the callee to its arguments
                     sc = [self.scalar(cargs[k]) for k in callee.all_params if k in cargs]
                     if all(isinstance(x, Poly) for x in sc):
                         return Poly.fn(callee.name, *sc)
